@@ -1,6 +1,8 @@
 """C02 - a proof binds to its statement; altered statements or proofs are rejected."""
 import collections, json, re
-import common, gen_ast, gen_exec
+import common
+import gen_ast, gen_exec
+from common import P
 from props import base, c01
 
 LEVEL = "proof"
@@ -50,6 +52,39 @@ def run(rep, tier, rng):
                 found = True
     if dist["OK"] < 0.7 * len(cases):
         raise common.BuildError("C02 generator: fewer than 70%% of the programs execute (%s)" % dict(dist))
+
+    # ---- the element sequence of the statement (Fiat-Shamir seed): layout against Air/PubInputs.pub_elements -----
+    pe, found_pe = [], False
+    rp = r.fork("pub")
+    for i in range(12 if tier == "quick" else 400):
+        v = lambda: rp.choice([0, 1, P - 1, rp.below(P)])
+        nk = rp.choice([0, 0, 1, 2, 3])
+        ni = rp.choice([0, 1, 4, 15, 16])
+        no = rp.choice([16, 16, 17, 20])
+        pe.append("%s | %s | %s | %s | %s" % (" ".join(str(v()) for _ in range(4)), " ".join(str(rp.below(P)) for _ in range(4 * nk)),
+                                            " ".join(str(v()) for _ in range(ni)), " ".join(str(v()) for _ in range(no)),
+                                            " ".join(str(rp.below(2**32)) for _ in range(no - 15 if no > 16 else 0))))
+    po = common.run_impl("pubelems", pe, tag="c02e")
+    mq, keep = [], []
+    for c, x in zip(pe, po):
+        dist["pubelems:" + x.split()[0]] += 1
+        if not x.startswith("OK"):
+            if x.startswith("PANIC"):
+                rep.violation("building the public inputs panics", {"kind": "search", "family": "pubelems", "case": c, "impl": x[:300]})
+                found = True
+            continue
+        d = dict(kv.split("=", 1) for kv in x.split()[1:])
+        lst = lambda t: [] if t == "-" else t.split(",")
+        kw = [] if d["kernel"] == "-" else [w.split(",") for w in d["kernel"].split("/")]
+        h = c.split("|")[0].split()
+        mq.append("pub %s K %d %s I %d %s O %d %s A %d %s" % (" ".join(h), len(kw), " ".join(sum(kw, [])), len(lst(d["inputs"])), " ".join(lst(d["inputs"])),
+                                                              len(lst(d["outputs"])), " ".join(lst(d["outputs"])), len(lst(d["addrs"])), " ".join(lst(d["addrs"]))))
+        keep.append((c, x, d["elements"]))
+    for (c, x, els), y in zip(keep, common.run_model("params", mq, tag="c02e")):
+        if y != "OK " + els:
+            rep.violation("PublicInputs::to_elements is not hash ++ kernel ++ inputs ++ outputs ++ overflow addresses",
+                          {"kind": "correspondence", "family": "pubelems", "case": c, "impl": x[:500], "model": y[:300]})
+            found = True
 
     # ---- proof parameters outside the accepted sets ------------------------------------------------------
     weak = []
